@@ -8,17 +8,42 @@ package jwsutil
 //@   pure
 //@   requires jwk != nil
 //@   requires forall i int :: 0 <= i && i < len(opts) ==> opts[i] != nil
+// C15: what comes back verified is a three-segment compact JWS checked with an EC or OKP key, and
+// (when no detached payload is supplied) its payload is the decoded middle segment, unchanged
+//@   ensures [nonnil] err == nil ==> ret != nil
+//@   ensures [kty] err == nil ==> jwk.Kty == "EC" || jwk.Kty == "OKP"
+//@   ensures [compact] err == nil ==> len(strings.Split(jwsStr, ".")) == 3 && !hasPrefix(jwsStr, "{")
+//@   ensures [payload] err == nil && len(opts) == 0 ==> string(ret.Payload) == unb64(strings.Split(jwsStr, ".")[1]) && len(ret.Payload) > 0
 
 //@ func ParseJWS(jwsStr, opts) (ret, err)
 //@   pure
 //@   requires forall i int :: 0 <= i && i < len(opts) ==> opts[i] != nil
 //@   ensures [nonnil] err == nil ==> ret != nil
+//@   ensures [compact] err == nil ==> len(strings.Split(jwsStr, ".")) == 3 && !hasPrefix(jwsStr, "{")
+//@   ensures [payload] err == nil && len(opts) == 0 ==> string(ret.Payload) == unb64(strings.Split(jwsStr, ".")[1]) && len(ret.Payload) > 0
+//@   loop 0 invariant len(opts) == 0 ==> len(pOpts.detachedPayload) == 0
 
 // C16 / C19: secp256k1 keys are read by the repository's own code
 //@ func unmarshalSecp256k1(jwk) (ret, err)
 //@   requires jwk != nil
 //@   modifies nothing
 //@   ensures [atomic] (err != nil ==> ret == nil) && (err == nil ==> ret != nil)
+// C16: a key is read only when both coordinates are present at the curve's full width (32 bytes:
+// leading zero bytes are part of the encoding, a shorter or longer coordinate is refused), a private
+// value, when present, has full width too, and the point is on the curve
+//@   ensures [width] err == nil ==> jwk.X != nil && jwk.Y != nil && len(jwk.X.data) == 32 && len(jwk.Y.data) == 32
+//@   ensures [width.d] err == nil && jwk.D != nil ==> len(jwk.D.data) == dSize(btcec.S256())
+//@   ensures [on-curve] err == nil ==> old(btcec.S256().IsOnCurve(deref(jwk.X).bigInt(), deref(jwk.Y).bigInt()))
+//@   ensures [kind] err == nil ==> (jwk.D == nil ==> typeis(ret.Key, *ecdsa.PublicKey)) && (jwk.D != nil ==> typeis(ret.Key, *ecdsa.PrivateKey))
+
+// the number a coordinate denotes: a function of its bytes
+//@ func (b byteBuffer) bigInt() (r)
+//@   pure
+//@   ensures [nonnil] r != nil
+
+//@ func dSize(curve) (n)
+//@   pure
+//@   requires curve != nil
 
 // calling a parse option: it may only write the option struct it is given
 //@ func (o ParseOpt) call(opts)
@@ -33,3 +58,69 @@ package jwsutil
 //@   requires jwk != nil
 //@   modifies nothing
 //@   ensures [size] err == nil ==> len(key) == 32
+
+// ---------------------------------------------------------------------------
+// C16: fixed-width coordinates of secp256k1 keys (the repository's own JWK code path)
+
+// a coordinate is written at exactly the requested width: zero bytes in front, the value behind them
+//@ func newFixedSizeBuffer(data, length) (b)
+//@   requires 0 <= length && length <= 4096 && len(data) <= length
+//@   modifies nothing
+//@   ensures [width] b != nil && len(b.data) == length
+//@   ensures [padding] forall i int :: 0 <= i && i < length - len(data) ==> b.data[i] == 0
+//@   ensures [content] forall i int :: 0 <= i && i < len(data) ==> b.data[length - len(data) + i] == data[i]
+
+// bytes needed for a curve's coordinates: the bit size rounded up to whole bytes
+//@ func curveSize(crv) (n)
+//@   requires crv != nil && 0 < crv.Params().BitSize && crv.Params().BitSize <= 65536
+//@   modifies nothing
+//@   ensures [ceil] n == (crv.Params().BitSize + 7) / 8
+
+// ---------------------------------------------------------------------------
+// C15: what a signature check refuses before any cryptography runs
+
+// byte width of a signature half for the curve named in a JWK (0: the curve is not supported)
+//@ spec func ecKeySize(crv string) int =
+//@   ite(crv == "P-256", 32, ite(crv == "P-384", 48, ite(crv == "P-521", 66, ite(crv == "secp256k1", 32, 0))))
+
+//@ func parseEllipticCurve(curve) (ec)
+//@   modifies nothing
+//@   ensures [table] (ec == nil) == (ecKeySize(curve) == 0)
+//@   ensures [size] ec != nil ==> ec.keySize == ecKeySize(curve)
+
+// only EC and OKP keys verify anything
+//@ func VerifySignature(jwk, signature, msg) (err)
+//@   requires jwk != nil
+//@   modifies nothing
+//@   ensures [kty] err == nil ==> old(jwk.Kty == "EC" || jwk.Kty == "OKP")
+
+// an ECDSA signature is accepted only for a supported curve and at exactly twice the curve's byte width
+//@ func verifyECSignature(jwk, signature, msg) (err)
+//@   requires jwk != nil
+//@   modifies nothing
+//@   ensures [curve] err == nil ==> old(ecKeySize(jwk.Crv)) != 0
+//@   ensures [length] err == nil ==> len(signature) == 2 * old(ecKeySize(jwk.Crv))
+
+// a compact JWS has exactly three dot-separated segments, each unpadded base64url; header and
+// signature are never empty, and without a detached payload the payload is the decoded middle segment
+//@ func parseCompacted(jwsCompact, opts) (ret, err)
+//@   requires opts != nil
+//@   modifies nothing
+//@   let parts := strings.Split(jwsCompact, ".")
+//@   ensures [atomic] (err != nil ==> ret == nil) && (err == nil ==> ret != nil)
+//@   ensures [segments] err == nil ==> len(parts) == 3 && b64ok(parts[0]) && b64ok(parts[2])
+//@   ensures [payload] err == nil && len(opts.detachedPayload) == 0 ==> b64ok(parts[1]) && string(ret.Payload) == unb64(parts[1]) && len(ret.Payload) > 0
+//@   ensures [signature] err == nil ==> string(ret.signature) == unb64(parts[2]) && len(ret.signature) > 0
+
+// a secp256k1 key handed in for serialisation is a point of the curve: its coordinates (and the
+// private value) are numbers below 2^256, so they fit the fixed 32-byte fields
+//@ spec func fitsSecp256k1(k *ecdsa.PublicKey) bool = k != nil && k.X != nil && k.Y != nil && len(k.X.Bytes()) <= 32 && len(k.Y.Bytes()) <= 32
+//@ func marshalSecp256k1(jwk) (ret, err)
+//@   requires jwk != nil
+//@   requires typeis(jwk.Key, *ecdsa.PublicKey) ==> fitsSecp256k1(jwk.Key.(*ecdsa.PublicKey))
+//@   requires typeis(jwk.Key, *ecdsa.PrivateKey) ==> jwk.Key.(*ecdsa.PrivateKey) != nil && jwk.Key.(*ecdsa.PrivateKey).D != nil &&
+//@            jwk.Key.(*ecdsa.PrivateKey).X != nil && jwk.Key.(*ecdsa.PrivateKey).Y != nil && jwk.Key.(*ecdsa.PrivateKey).Curve != nil &&
+//@            len(jwk.Key.(*ecdsa.PrivateKey).X.Bytes()) <= 32 && len(jwk.Key.(*ecdsa.PrivateKey).Y.Bytes()) <= 32 &&
+//@            0 <= dSize(jwk.Key.(*ecdsa.PrivateKey).Curve) && dSize(jwk.Key.(*ecdsa.PrivateKey).Curve) <= 4096 &&
+//@            len(jwk.Key.(*ecdsa.PrivateKey).D.Bytes()) <= dSize(jwk.Key.(*ecdsa.PrivateKey).Curve)
+//@   modifies nothing
